@@ -501,7 +501,61 @@ def direct_case(item):
     return res
 
 
+def _hist_hook(hr, step, op, entry, anoms, ctx):
+    """On generated histories (sub-directories, default rules, checksummed targets, out-of-band builds): the viewer never gives
+    up during a build, and every target the command built can be replayed."""
+    from ..histrun import Anomaly
+    if entry is None or ctx is None or entry.get('status') != 'exit':
+        return []
+    out = []
+    text = (hr.last_result.err or '') + (hr.last_result.out or '')
+    m = re.search(r'redo-log: [^\n]*(not known to redo|rror)[^\n]*', text)
+    if m:
+        out.append(Anomaly(cls='viewer', key='history:viewer-error', what='during %s: %s' % (entry['argv'], m.group(0)[:200])))
+    hr.stats['viewer_commands_checked'] = hr.stats.get('viewer_commands_checked', 0) + 1
+    for t in [n for n in ctx['ran'] if ctx['done'].get(n) and n in hr.p.targets][:3]:
+        r = hr.redo(['redo-log', '-r', '--no-pretty', t], timeout=60)
+        hr.stats['replays_of_built_targets'] = hr.stats.get('replays_of_built_targets', 0) + 1
+        if r.status == 'exit' and r.rc != 0:
+            out.append(Anomaly(cls='viewer', key='history:replay-fails', what='redo-log -r %s exits %s after %s built it: %s' % (t, r.rc, entry['argv'], (r.err + r.out)[-200:])))
+        elif r.status == 'exit':
+            # the lines the script wrote (ERRLINES in its cfg) are all there, once each
+            nl = int(hr.p.targets[t].get('errlines') or 0)
+            for i in range(nl):
+                c = len(re.findall(r'^%s#%d$' % (re.escape(t), i), r.out, re.M))
+                if c != 1:
+                    out.append(Anomaly(cls='viewer', key='history:replay-line-count', what='line %s#%d appears %d times in redo-log -r %s' % (t, i, c, t)))
+                    break
+    hr.anoms.extend(out)
+    return []
+
+
+def hist_case(seed):
+    from .. import gen, histrun
+    prof = gen.profile(ntgt=(4, 10), p_subdir=0.45, p_default=0.5, p_twodot=0.3, p_stamp=0.35, p_always=0.1, p_flag=0.1, p_opt=0.05, steps=(6, 14),
+                       jmax=(3 if seed % 2 else 1), ops=dict(m_stamp=3, force=2, edit_r=3, edit_i=2, rm=1, doedit=1))
+    rnd = random.Random(seed)
+    p = gen.gen_program(rnd, prof)
+    for n in p.targets:
+        p.targets[n]['errlines'] = rnd.choice([0, 1, 3, 7])
+    r = histrun.run_history(seed, prof, tag='c18h', hook=_hist_hook, prog=p)
+    mine = [a for a in r['anoms'] if a['cls'] == 'viewer']
+    if any(a['cls'] == 'timeout' for a in r['anoms']):
+        return dict(verdict='inconclusive', why='watchdog without stuck witness', sample=dict(kind='history', seed=seed))
+    res = dict(verdict='violated' if mine else 'held', nontrivial=r['stats'].get('replays_of_built_targets', 0) >= 2,
+               shape=common.shash([r['shape'], [h.get('argv') for h in r['hist']]]), sample=dict(kind='history', seed=seed, commands=r['stats']['commands']),
+               obs=dict(history_commands=r['stats']['commands'], viewer_commands_checked=r['stats'].get('viewer_commands_checked', 0),
+                        replays_of_built_targets=r['stats'].get('replays_of_built_targets', 0)), sets=dict(segments=['history']))
+    if mine:
+        seen = set()
+        res['violations'] = [dict(key=a['key'], what=a['what']) for a in mine if not (a['key'] in seen or seen.add(a['key']))]
+        res['replay'] = dict(kind='hist', item=['hist', seed])
+    return res
+
+
 def dispatch(item):
+    if item[0] == 'hist':
+        return hist_case(item[1])
     if item[0] == 'subdir':
         return subdir_case(item)
     return direct_case(item) if item[0] == 'direct' else case(item)
@@ -535,6 +589,8 @@ def main(tier):
         for depth in (1, 2):
             for rep in range(1 if quick else 5):
                 items.append(('subdir', j, depth, rep))
+    for i in range(40 if quick else 800):
+        items.append(('hist', common.seed() * 100003 + (0 if quick else 50000) + i))
     for i in range(4 if quick else 60):
         items.append(('direct', common.seed() * 977 + i, 5000 if quick else 20000))
     common.ensure_native()
